@@ -97,9 +97,13 @@ NEAR = len(ROWS)
 ROWS.append((14, 0, 3.3, 3.6, 2.0))
 
 
-def run_variant(case, rows, shift=0, mults=None, name="v"):
+def run_variant(case, rows, shift=0, mults=None, name="v", d=None):
     """rows: list of indices into ROWS in file order. Returns {tag: [per record tuple]} or raises RunFailed."""
-    d = util.scratch("c14")
+    if d is None:
+        d = util.scratch("c14")
+    else:  # every variant of a case rewrites the files of its predecessor in place (same paths, same sizes): nothing may be remembered about them
+        for f_ in d.glob("out*.nc"):
+            f_.unlink()
     sign = -1 if case.get("rev") else 1
     NSTEPS = case.get("nsteps", 7)
     t0 = S0 + sign * shift * DT
@@ -206,7 +210,8 @@ def run_case(case):
     viols, n, nt = [], 0, 0
     outcomes = set()
     try:
-        base, base_raw = run_variant(case, list(range(NLONG)) if case.get("nsteps") else [0, 1, 2, 3] + ([NEAR] if case.get("coords") == "ll" else []))
+        dshared = util.scratch("c14")
+        base, base_raw = run_variant(case, list(range(NLONG)) if case.get("nsteps") else [0, 1, 2, 3] + ([NEAR] if case.get("coords") == "ll" else []), d=dshared)
     except drive.RunFailed as e:
         return util.result(viol=[util.viol("crash:base", f"{case}: {e}", case)], nontrivial=1)
     n += 1
@@ -218,7 +223,7 @@ def run_case(case):
         if only and [what, str(kw)] != [only[0], only[1]]:
             continue
         try:
-            var, raw = run_variant(case, kw["rows"], shift=kw.get("shift", 0), mults={int(k): v for k, v in kw.get("mults", {}).items()})
+            var, raw = run_variant(case, kw["rows"], shift=kw.get("shift", 0), mults={int(k): v for k, v in kw.get("mults", {}).items()}, d=dshared)
         except drive.RunFailed as e:
             viols.append(util.viol(f"crash:{what}", f"{case} {what} {kw}: {e}", dict(case, only=[what, str(kw)])))
             continue
